@@ -114,7 +114,7 @@ def _fmt(row):
     return f"[{a}] => {e}{' '.join(outcome)}"
 
 
-@rule("C03.clone", ["C03"],
+@rule("C03.clone", ["C03", "C01"],
       "each stand-alone C validator and its copy inside the compound switch "
       "have the same decision table (atoms, reference effects, outcomes)")
 def c03_clone(ctx, res):
@@ -154,7 +154,7 @@ def c03_clone(ctx, res):
                             f"floor is 15")
 
 
-@rule("C03.next-alternative", ["C03"],
+@rule("C03.next-alternative", ["C03", "C01"],
       "when an alternative of a compound trait does not accept, the next "
       "alternative is tried: no arm of the compound switch leaves the loop "
       "over alternatives with a rejection")
